@@ -38,7 +38,7 @@ MANIFEST = {
                  "differential correspondence model vs implementation + independent reference oracle",
 }
 RULE = ("ops bip32_fam (histories over a family of objects: public copies, shared children)/bip32_texts (hwif, as_text, repr, wif)/bip32_address/c09pure <op> (same op under PYCOIN_NATIVE=none)/bip32_ckdraw/bip32_ckdpubraw/bip32_spec/bip32_master/bip32_node/bip32_pubcopy/bip32_ckd/bip32_path/bip32_nodepath/bip32_ser/bip32_deser/hwif/hparse/subpaths/"
-        "bip32_hist/bip32_pathhist/bip32_subkeys/electrum_new/electrum_subkey; boundary corpus (BIP32 vectors 1-3, indices 0, 1, "
+        "bip32_hist/bip32_pathhist/bip32_subkeys/bip32_override/bip32_ctor/bip32_children/electrum_new/electrum_subkey/electrum_args/electrum_ser/electrum_deser/electrum_subkeys/electrum_sfp; boundary corpus (BIP32 vectors 1-3, indices 0, 1, "
         "2^24-1, 2^24, 2^31-1, 2^31 hardened and not, parents whose exponent has leading zero bytes, depth 255/256, every network "
         "x prefix kind, wrong-length / wrong-prefix / corrupted extended keys, path spellings, ranges) + seeded random seeds, paths, "
         "call histories; distinct = distinct op line; trivial = rejected before any derivation")
@@ -265,6 +265,10 @@ def impl(op: str) -> str:
             x, y = a[6].split(",")
             r = subkey_secret_exponent_chain_code_pair(_StubGen(int(a[1])), int(a[2]), unhx(a[3]), int(a[4]), a[5] == "1", (int(x), int(y)))
             return "ok %d %s" % (r[0], hx(r[1]))
+        if k == "bip32_ckdraw0":
+            from pycoin.key.bip32 import subkey_secret_exponent_chain_code_pair
+            r = subkey_secret_exponent_chain_code_pair(net("btc").generator, int(a[1]), unhx(a[2]), int(a[3]), a[4] == "1")
+            return "ok %d %s" % (r[0], hx(r[1]))
         if k == "bip32_ckdpubraw":
             from pycoin.key.bip32 import subkey_public_pair_chain_code_pair
             x, y = a[2].split(",")
@@ -351,6 +355,46 @@ def impl(op: str) -> str:
             return "ok " + ";".join(show_node(n) for n in list(mk_node(a[1]).subkeys(h2s(a[2]))))
         if k == "electrum_new":
             return "ok " + show_wallet(wallet_from(a[1]))
+        if k == "bip32_override":
+            r = mk_node(a[1]).override_network(net(a[2]))
+            return "ok %s %s" % (show_node(r), _text(lambda: r.as_text(as_private=r.secret_exponent() is not None)))
+        if k == "bip32_ctor":
+            kw = dict(chain_code=unhx(a[5]), depth=int(a[2]), parent_fingerprint=unhx(a[3]), child_index=int(a[4]))
+            if a[6] != "-":
+                kw["secret_exponent"] = int(a[6])
+            if a[7] != "-":
+                kw["public_pair"] = (None, None) if a[7] == "inf" else tuple(int(t) for t in a[7].split(","))
+            return "ok " + show_node(cls_for("btc", int(a[1]))(**kw))
+        if k == "bip32_children":
+            node = mk_node(a[1])
+            return "ok " + ";".join(show_node(c) for c in node.children(max_level=int(a[2]), start_index=int(a[3]), include_hardened=a[4] == "1"))
+        if k == "electrum_args":
+            kw = {}
+            for spec in ([] if a[1] == "~" else a[1].split("+")):
+                kk, v = spec.split(":")
+                if kk == "seed":
+                    kw["initial_key"] = h2s(v)
+                elif kk == "prv":
+                    kw["master_private_key"] = int(v)
+                elif kk == "mpk":
+                    kw["master_public_key"] = unhx(v)
+                else:
+                    kw["public_pair"] = (None, None) if v == "inf" else tuple(int(t) for t in v.split(","))
+            cls = type(net("btc").keys.electrum_private(master_private_key=1))
+            return "ok " + show_wallet(cls(**kw))
+        if k == "electrum_ser":
+            return "ok " + hx(wallet_from(a[1]).serialize())
+        if k == "electrum_deser":
+            cls = type(net("btc").keys.electrum_private(master_private_key=1))
+            w = cls.deserialize(unhx(a[1]))
+            return "ok none" if w is None else "ok " + show_wallet(w)
+        if k == "electrum_subkeys":
+            w = wallet_from(a[1])
+            for _ in range(int(a[3])):
+                w = w.public_copy()
+            return "ok " + ";".join(show_wallet(x) for x in w.subkeys(h2s(a[2])))
+        if k == "electrum_sfp":
+            return "ok " + show_wallet(wallet_from(a[1]).subkey_for_path(h2s(a[2])))
         if k == "electrum_subkey":
             w = wallet_from(a[1])
             if a[3] == "1":
@@ -705,6 +749,10 @@ def oracle(op: str, out: str):
             tok2, _p2, tpub2 = r[3:].split(" ")
             if _check_node(tok2, ref_public(want), "x") or tpub2 != tpub:
                 return "deriving from the public copy does not give the public half of the private derivation"
+    if k == "bip32_ckdraw0":
+        x, y = ec_mul(int(a[1]))
+        if out != impl("bip32_ckdraw %d %s %s %s %s %d,%d" % (N, a[1], a[2], a[3], a[4], x, y)):
+            return "private derivation without the public pair differs from the one given the pair secret*G"
     if k == "bip32_ckdraw" and out.startswith("ok "):
         n, se, cc, i, hard = int(a[1]), int(a[2]), unhx(a[3]), int(a[4]), a[5] == "1"
         x, y = (int(t) for t in a[6].split(","))
@@ -871,6 +919,62 @@ def oracle(op: str, out: str):
                 exp.append(r[3:])
             if got != exp:
                 return "subkeys(range) is not subkey_for_path over the expanded range"
+    if k == "bip32_override" and out.startswith("ok "):
+        src = impl("bip32_node " + a[1])
+        got_node, got_text = out[3:].split(" ")
+        if src.startswith("ok ") and got_node.split(":")[1:] != src[3:].split(":")[1:]:
+            return "override_network changed a field of the node"
+        if got_node.split(":")[0] != "32":
+            return "override_network did not build a BIP32 node of the other network"
+        if not got_text.startswith("!"):
+            back = impl("hparse %s 32 %s" % (a[2], got_text))
+            if not back.startswith("ok ") or back[3:].split(" ")[0] != got_node:
+                return "the text of the overridden node does not parse back to it on the other network"
+    if k == "bip32_ctor" and out.startswith("ok ") and (a[6] == "-") == (a[7] == "-"):
+        return "BIP32Node built with %s of secret_exponent / public_pair" % ("neither" if a[6] == "-" else "both")
+    if k == "bip32_children" and out.startswith("ok "):
+        got = out[3:].split(";") if out[3:] else []
+        want = []
+        for i in range(int(a[3]), int(a[2]) + int(a[3]) + 1):
+            for h in ("0", "1") if a[4] == "1" else ("0",):
+                r = impl("bip32_ckd %s %d %s n" % (a[1], i, h))
+                want.append(r[3:] if r.startswith("ok ") else r)
+        if got != want:
+            return "children() is not subkey(i) [, subkey(i, hardened)] for i = start .. start + max_level"
+    if k == "electrum_sfp":
+        if out != impl("electrum_subkey %s %s 0" % (a[1], a[2])):
+            return "electrum: subkey_for_path(path) differs from subkey(path)"
+    if k == "electrum_args" and out.startswith("ok "):
+        if a[1] == "~" or "+" in a[1]:
+            return "ElectrumWallet built from %s arguments" % ("no" if a[1] == "~" else "several")
+    if k == "electrum_ser" and out.startswith("ok "):
+        w = impl("electrum_new " + a[1])
+        back = impl("electrum_deser " + out[3:])
+        if w.startswith("ok ") and back != w:
+            return "electrum: deserialize(serialize(w)) is not w"
+        se = w[3:].split(" ")[0] if w.startswith("ok ") else "-"
+        if se not in ("-", "0") and unhx(out[3:]) != int(se).to_bytes(32, "big"):
+            return "electrum: a private wallet does not serialise to the 32 bytes of its exponent"
+    if k == "electrum_deser" and out.startswith("ok ") and out != "ok none":
+        if len(unhx(a[1])) not in (32, 64):
+            return "electrum: deserialize accepted a blob that is neither 32 nor 64 bytes"
+    if k == "electrum_subkeys" and out.startswith("ok ") and a[3] != "0":
+        # commutation over a whole range: the public copy (taken once or twice) derives the public halves
+        r = impl("electrum_subkeys %s %s 0" % (a[1], a[2]))
+        if r.startswith("ok "):
+            pub = [" ".join(["-"] + x.split(" ")[1:]) for x in r[3:].split(";")] if r[3:] else []
+            if (out[3:].split(";") if out[3:] else []) != pub:
+                return "electrum: subkeys(range) of the public copy are not the public halves of the private subkeys"
+    if k == "electrum_subkeys" and out.startswith("ok ") and a[3] == "0":
+        exp = []
+        for p in subpaths_for_path_range(h2s(a[2]), hardening_chars="'pH"):
+            r = impl("electrum_subkey %s %s 0" % (a[1], s2h(p)))
+            if not r.startswith("ok "):
+                exp = None
+                break
+            exp.append(r[3:])
+        if exp and out[3:].split(";") != exp:
+            return "electrum: subkeys(range) is not subkey over the expanded range"
     if k == "electrum_subkey" and out.startswith("err ") and a[3] == "0" and a[1].startswith("prv:") and len(h2s(a[2]).split("/")) in (1, 2):
         if impl("electrum_new " + a[1]).startswith("ok ") and impl("electrum_subkey %s %s 1" % (a[1], a[2])).startswith("ok "):
             return "electrum: private derivation raised %s where the derivation from the public copy succeeds" % out[4:]
@@ -1381,3 +1485,50 @@ def gen(ctx, emit):
         if rng.random() < 0.3:
             emit("electrum_subkey prv:%d %s 1" % (se, s2h(path)))
     emit("electrum_subkey seed:%s %s 0" % (s2h("0123456789abcdef0123456789abcdef"), s2h("3/1")))
+    for _ in range(ctx.n(8, 300)):
+        emit("bip32_ckdraw0 %d %s %d %d" % (rng.choice([1, 2, N - 1, rng.randrange(1, N)]), hx(rb(32)), rng.choice([0, 1, 2 ** 31 - 1, 2 ** 31, 2 ** 32 - 1, rng.randrange(2 ** 32)]), rng.randrange(2)))
+    # --- BIP32Node: constructor with both / neither key argument, override_network, children
+    cc, fp = hx(rb(32)), hx(rb(4))
+    for kind in (32, 49, 84):
+        for se_, pp_ in (("-", "-"), ("5", "%d,%d" % G), ("5", "-"), ("-", "%d,%d" % G), ("-", "inf"), ("0", "-"), ("0", "%d,%d" % G), ("5", "inf")):
+            emit("bip32_ctor %d 1 %s 7 %s %s %s" % (kind, fp, cc, se_, pp_))
+    emit("bip32_ctor 32 1 %s 7 %s 5 -" % (fp, hx(rb(31))))
+    emit("bip32_ctor 32 1 %s 7 %s 5 -" % (hx(rb(3)), cc))
+    onets = [m for m in all_modules() if supported(m) and 32 in kinds_of(m)]
+    for kind in (32, 49, 84):
+        t = rand_priv_tok(kind=kind)
+        for m in rng.sample(onets, min(len(onets), ctx.n(4, 40))):
+            emit("bip32_override %s %s" % (t, m))
+        emit("bip32_override %s %s" % (pub_tok_of(t), rng.choice(onets)))
+    emit("bip32_override %s ltc" % rand_priv_tok(depth=255))
+    emit("bip32_override %s ltc" % rand_priv_tok(depth=256))
+    t = rand_priv_tok()
+    for mx, st, hd in ((0, 0, 1), (1, 0, 1), (2, 5, 0), (1, 2 ** 31 - 2, 0), (1, 2 ** 31 - 1, 0), (0, 2 ** 31 - 1, 1)):
+        emit("bip32_children %s %d %d %d" % (t, mx, st, hd))
+    emit("bip32_children %s 1 0 0" % pub_tok_of(t))
+    emit("bip32_children %s 1 0 1" % pub_tok_of(t))
+    # constructor with none / several arguments, serialize / deserialize, subkeys(range), subkey_for_path
+    gpub = "pub:%d,%d" % G
+    mpk = "mpk:" + hx(G[0].to_bytes(32, "big") + G[1].to_bytes(32, "big"))
+    for specs in ("~", "prv:5", gpub, mpk, "prv:5+" + gpub, "prv:5+" + mpk, gpub + "+" + mpk, "prv:5+" + gpub + "+" + mpk,
+                  "seed:%s+prv:5" % s2h("ab"), "prv:0+" + gpub, "pub:inf", "pub:inf+prv:7"):
+        emit("electrum_args " + specs)
+    for spec in ("prv:1", "prv:2", "prv:%d" % (N - 1), "pub:%d,%d" % G, "pub:%d,%d" % g2, mpk, "pub:inf", "seed:%s" % s2h("0123456789abcdef")):
+        emit("electrum_ser " + spec)
+    for blob in (b"", b"\x00" * 32, (1).to_bytes(32, "big"), (N - 1).to_bytes(32, "big"), N.to_bytes(32, "big"), b"\xff" * 32,
+                 G[0].to_bytes(32, "big") + G[1].to_bytes(32, "big"), G[0].to_bytes(32, "big") + (P - G[1]).to_bytes(32, "big"),
+                 b"\x00" * 64, b"\x01" * 64, b"\x01" * 31, b"\x01" * 33, b"\x01" * 63, b"\x01" * 65, b"\x02" + G[0].to_bytes(32, "big")):
+        emit("electrum_deser " + hx(blob))
+    for _ in range(ctx.n(12, 400)):
+        se = rng.randrange(1, N)
+        emit("electrum_ser prv:%d" % se)
+        emit("electrum_deser " + hx(rng.randbytes(rng.choice([32, 32, 64, 31, 33, 0, 65]))))
+        x, y = ec_mul(rng.randrange(1, N))
+        emit("electrum_deser " + hx(x.to_bytes(32, "big") + y.to_bytes(32, "big")))
+        emit("electrum_ser pub:%d,%d" % (x, y))
+        path = rng.choice(["%d" % rng.randrange(1000), "%d/%d" % (rng.randrange(1000), rng.randrange(2)), "x", "1/2/3"])
+        emit("electrum_sfp prv:%d %s" % (se, s2h(path)))
+    for rngtxt in ("0-2", "0-1/0-1", "3", "0,5/1", "0-1/0,1", "2-1", "x", "0-1/2/3", "1H", "0-1'"):
+        for mode in (0, 1, 2):
+            emit("electrum_subkeys prv:%d %s %d" % (rng.randrange(1, N), s2h(rngtxt), mode))
+    emit("electrum_subkeys pub:%d,%d %s 1" % (G[0], G[1], s2h("0-1")))
